@@ -1183,6 +1183,8 @@ class Result(object):
         self.notes = []
         self.solver_time = 0.0
         self.solver_calls = 0
+        self.log_args = {'evaluated': 0, 'skipped': 0}
+        self.retries = 0
         self.recheck = None
         self.wall = 0.0
         self.sources = {}
@@ -1423,6 +1425,8 @@ def verify(world_factory, c, registry_by_name=None):
     res.notes = list(dict.fromkeys(ex.notes))
     res.solver_time = ex.solver_time
     res.solver_calls = ex.solver_calls
+    res.log_args = dict(getattr(ex, 'log_args_stats', {'evaluated': 0, 'skipped': 0}))
+    res.retries = getattr(ex, 'retries', 0)
     res.samples = samples
     for o in ex.obligations:
         res.obligations.append({'name': o.name, 'status': o.status, 'path': o.path, 'detail': o.detail,
